@@ -524,6 +524,27 @@ def component_family(rep, n):
     from common import run_driver
     r = rng_for(rep.seed, "components")
     cases = [gen_component_case(r, i) for i in range(n)]
+    # CPython's answer to "is this default an expression?" for every default a parameter list could contain (the table the
+    # model's oracle parameter is answered from)
+    import ast as _ast
+    from bardic.compiler.parsing import content as _content
+    for c in cases:
+        if c["fn"] == "parse_passage_params":
+            ok, bad = [], []
+            try:
+                parts = _content._split_on_commas(c["s"])
+            except Exception:  # noqa
+                parts = []
+            for part in parts:
+                part = part.strip()
+                if "=" in part:
+                    d = part[part.index("=") + 1:].strip()
+                    try:
+                        _ast.parse(d, mode="eval")
+                        ok.append(d)
+                    except (SyntaxError, ValueError, MemoryError, RecursionError):
+                        bad.append(d)
+            c["expr_ok"], c["expr_bad"] = ok, bad
     outs = run_driver(cases)
     stats = {}
     agree = 0
